@@ -354,7 +354,7 @@ func c17(args []string) int {
 			ri := network.NewRequestInfo()
 			snap := cluster.GetClusterMngAdapterInstance().GetClusterSnapshot(context.Background(), "c17plain")
 			ri.OnUpstreamHostSelected(cluster.NewSimpleHost(v2.Host{HostConfig: v2.HostConfig{Address: "127.0.0.1:8080", Hostname: e.DNSHost}}, snap.ClusterInfo()))
-			rule.FinalizeRequestHeaders(ctx, hm, ri)
+			guarded("FinalizeRequestHeaders", e, func() { rule.FinalizeRequestHeaders(ctx, hm, ri) })
 			gotH := map[string]string(hm.(protocol.CommonHeader))
 			gotPath, perr := variable.GetString(ctx, types.VarPath)
 			gotAuth, aerr := variable.GetString(ctx, types.VarIstioHeaderHost)
@@ -432,7 +432,8 @@ func c17(args []string) int {
 
 			// ---- response side
 			ctx2, hm2 := q.ctx()
-			rule.FinalizeResponseHeaders(ctx2, hm2, ri)
+			guarded("FinalizeResponseHeaders", e, func() { rule.FinalizeResponseHeaders(ctx2, hm2, ri) })
+			reportPanics(run, "c17", map[string]interface{}{"action": a})
 			gotR := map[string]string(hm2.(protocol.CommonHeader))
 			wantR := copyMap(e.Hdr)
 			for lvl := 0; lvl < 3; lvl++ {
